@@ -138,6 +138,61 @@ Example int_column_metrics_nonvacuous :
   /\ finalize (run MMin (to_cells [VInt 5; VNull; VInt (-2)])) = FInt (-2).
 Proof. split; [repeat constructor; unfold in_i64, two63; lia|]. vm_compute. auto. Qed.
 
+(** * COUNT UNIQUE counts the distinct texts of the values, whatever the batching *)
+
+(** what a cell contributes to the set ([agg_count_unique_typed_empty] is [false] on the
+    repaired tree: a typed integer counts as its decimal text) *)
+Definition cell_text (c : cell) : bytes :=
+  match c with CStr x => x | CInt z => dec_of_Z z | CNull => [] end.
+
+Definition unique_set (a : agg) : list bytes := match a with AUnique s => s | _ => [] end.
+
+Lemma count_unique_flag : agg_count_unique_typed_empty = false.
+Proof. reflexivity. Qed.
+
+Lemma fold_unique : forall l s0, sset s0 ->
+  exists s, fold_left (upd MCountUnique) l (AUnique s0) = AUnique s /\ sset s
+            /\ forall x, In x s <-> In x s0 \/ In x (map cell_text l).
+Proof.
+  induction l as [|c l IH]; intros s0 S0; cbn [fold_left].
+  - exists s0. repeat split; auto. cbn. tauto.
+  - cbn [upd]. rewrite count_unique_flag.
+    replace (match c with CInt z => dec_of_Z z | CNull => [] | CStr x => x end) with (cell_text c)
+      by (destruct c; reflexivity).
+    destruct (IH (set_insert (cell_text c) s0) (set_insert_sset _ _ S0)) as (s & E & S & M).
+    exists s. split; [exact E|]. split; [exact S|]. intros x. rewrite M, set_insert_in. cbn [map In].
+    intuition.
+Qed.
+
+Lemma cell_text_to_cells : forall vs, map cell_text (to_cells vs) = map cell_string vs.
+Proof.
+  intros vs. unfold to_cells. destruct (col_typed vs) eqn:T; rewrite map_map.
+  - apply map_ext_in. intros v Hv. unfold col_typed in T. rewrite forallb_forall in T.
+    specialize (T v Hv). destruct v; try discriminate; reflexivity.
+  - apply map_ext. reflexivity.
+Qed.
+
+(** for every way of cutting the values of a column into batches (each converted on its own,
+    typed or not), COUNT UNIQUE holds exactly the set of the values' texts *)
+Theorem count_unique_texts : forall (batches : list (list value)),
+  exists s, run MCountUnique (concat (map to_cells batches)) = AUnique s /\ sset s
+            /\ (forall x, In x s <-> In x (map cell_string (concat batches)))
+            /\ finalize (run MCountUnique (concat (map to_cells batches))) = FInt (Z.of_nat (length s)).
+Proof.
+  intros batches. unfold run. cbn [agg_init].
+  destruct (fold_unique (concat (map to_cells batches)) [] ltac:(constructor)) as (s & E & S & M).
+  exists s. rewrite E. repeat split; auto.
+  - intros H. apply M in H. destruct H as [[]|H].
+    rewrite concat_map, map_map in H. rewrite concat_map.
+    erewrite map_ext in H; [exact H|]. intros b. apply cell_text_to_cells.
+  - intros H. apply M. right. rewrite concat_map, map_map. rewrite concat_map in H.
+    erewrite map_ext; [exact H|]. intros b. apply cell_text_to_cells.
+Qed.
+
+Example count_unique_texts_example :
+  finalize (run MCountUnique (concat (map to_cells [[VInt 5; VInt 7]; [VInt 5; VStr [120%N]]; [VNull; VInt 7]]))) = FInt 4.
+Proof. vm_compute. reflexivity. Qed.
+
 (** * Closed witnesses of the known classes (what the model, hence the code, computes) *)
 Definition f_of (r : bytes) (bits : N) : value := VFloat bits r.
 Definition v15 : value := VFloat 4609434218613702656%N [49; 46; 53]%N.          (* 1.5 *)
@@ -149,10 +204,9 @@ Definition w10 : value := VStr [49%N; 48%N].
 Definition w1a : value := VStr [49%N; 97%N].
 
 Example known_class_witnesses :
-  (* CountUniqueTypedBatch: COUNT UNIQUE over 5,7,5 in one all-integer batch *)
-  (agg_count_unique_typed_empty = true ->
-     finalize (run MCountUnique (to_cells [VInt 5; VInt 7; VInt 5])) = FInt 1)
-  (* ... while the same values next to a string are counted by their text *)
+  (* formerly CountUniqueTypedBatch (fixed by 6631182): COUNT UNIQUE over 5,7,5 in one all-integer batch *)
+  finalize (run MCountUnique (to_cells [VInt 5; VInt 7; VInt 5])) = FInt 2
+  (* ... and next to a string the same values are counted by the same texts *)
   /\ finalize (run MCountUnique (to_cells [VInt 5; VInt 7; VInt 5; VStr [120%N]])) = FInt 3
   (* CountFieldNullInStringBatch: COUNT f over 'a', null *)
   /\ finalize (run MCountField (to_cells [VStr [97%N]; VNull])) = FInt 2
